@@ -230,6 +230,23 @@ PROPS["C09"] = dict(
     floor=dict(quick=10000, thorough=100000),
 )
 
+PROPS["C10"] = dict(
+    level="exploration",
+    technique="rapidcheck differential testing of every RSA implementation against GMP and OpenSSL EVP (signatures and encryptions both ways), with blocks forged through the private exponent for strictness and GMP primality/consistency checks on generated keys",
+    rule=("case = (operation among raw public/private, PKCS#1 v1.5 sign/verify, PSS, OAEP, TLS key-exchange decryption, key generation + "
+          "recomputation; key from a committed pool of 16 keys 512..4096 bits incl. 1016/1017/1025/1031/2056 and e in {3,17,65537}, both factor "
+          "orders, generated leading zero bytes on every field; hash; message / salt / label lengths over their admissible range incl. maxima; one "
+          "generated defect: value >= n, wrong length, even/zero modulus, altered padding or DigestInfo byte, short FF run, BER length, wrong OID, "
+          "wrong block type, PSS trailer/top bits/salt length, OAEP first byte/label/EM byte). non-trivial = every case on a key >= 512 bits; "
+          "distinct = (operation, key, hash, length class, defect class, implementation)"),
+    assumptions=["GMP and OpenSSL 3.0 are correct", "compute_pubexp / compute_privexp are documented for factors equal to 3 mod 4 (keys made by the library's own generator): tested on generated keys only",
+                 "4096-bit key generation only in thorough mode (cost)"],
+    targets=[dict(name="c10_rsa", src="c10_rsa.cpp", flavour="san", libs=["-lcrypto", "-lgmp"])],
+    quick=[("c10_rsa", "rc", dict(cases=6400, shards=16))],
+    thorough=[("c10_rsa", "rc", dict(cases=240000, shards=16))],
+    floor=dict(quick=1500, thorough=20000),
+)
+
 # ---------------------------------------------------------------- manifest text
 HOOK_COMMITS = ["b37444c", "e1637c5"]
 NOT_APPLICABLE = {}
@@ -337,4 +354,13 @@ MANIFEST_TEXT["C09"] = dict(
           "extent is written. Word primitives: exhaustive boundary product for binary ones, all 2^32 inputs for unary ones (thorough)."),
     design_ref="DESIGN.md section 4, C09",
     note="search, not proof: the 2^64-pair claim for binary primitives is covered by boundary product + random pairs only",
+)
+
+MANIFEST_TEXT["C10"] = dict(
+    text=("All five RSA back-ends are run on every generated case and compared with GMP (raw operations) and OpenSSL (PKCS#1 v1.5 byte-equal "
+          "signatures; PSS, OAEP and TLS premaster encryption in both directions). Strictness is probed by forging arbitrary encoded blocks with "
+          "the private exponent in GMP, so exactly what a verifier may receive is tested: only the two standard DigestInfo forms and canonical "
+          "PSS/OAEP structures may be accepted. Generated keys are checked for primality and field consistency with GMP."),
+    design_ref="DESIGN.md section 4, C10",
+    note="trusts GMP and OpenSSL; byte-exhaustive corruption is sampled (one generated position per case), not enumerated",
 )
